@@ -1,6 +1,7 @@
 import PebblesVerif.Props.C01
 import PebblesVerif.Props.C01Flat
 import PebblesVerif.Props.C01FlatList
+import PebblesVerif.Props.C01FlatNested
 open PebblesVerif
 #print axioms C01_point_roundtrip_list
 #print axioms C01_point_roundtrip_list_noid
@@ -20,5 +21,16 @@ open PebblesVerif
 #print axioms C01_flat_list_instance
 #print axioms C01_flat_list_instance_dup
 #print axioms C01_flat_list_instance_empty
+#print axioms C01_flat_nested_one_hop
+#print axioms C01_flat_nested_calls
+#print axioms C01_flat_nested_calls_swapped
+#print axioms C01_flat_nested_lookup_outer_only
+#print axioms C01_flat_nested_lookup_inner_only
+#print axioms C01_flat_nested_no_lookup
+#print axioms C01_flat_nested_plan
+#print axioms C01_flat_nested_insertion_points
+#print axioms C01_flat_nested_instance
+#print axioms C01_flat_nested_instance_first
+#print axioms C01_flat_nested_instance_middle
 #print axioms C01_find_selection_level_first
 #print axioms C01_find_selection_depth_first_shadowed
